@@ -95,6 +95,26 @@ pub fn env_files(thorough: bool) -> Report {
             }
         }
     }
+    // ONE variable carrying several behaviours in ONE scope: every read of the written directory applies them in the lifecycle's order
+    // (append, default, override, prepend) - literal expected values, 25 fresh reads
+    for sc in 0..4u8 {
+        r.evaluations += 1; r.nontrivial += 1;
+        let t = tempfile::tempdir().unwrap(); let layer = t.path().join("layer"); fs::create_dir_all(&layer).unwrap();
+        let mut le = LayerEnv::new();
+        for (b, n, v) in [(MB::Append, "OPTS", "a"), (MB::Default, "OPTS", "d"), (MB::Prepend, "OPTS", "p"), (MB::Delimiter, "OPTS", ":"), (MB::Override, "OVR", "o"), (MB::Append, "OVR", "a"), (MB::Delimiter, "OVR", ":")] { le.insert(scope(sc), b, n, v); }
+        le.write_to_layer_dir(&layer).unwrap();
+        for rep in 0..25 {
+            let back = match LayerEnv::read_from_layer_dir(&layer) { Ok(b) => b, Err(e) => { r.violation("read_back", "read_from_layer_dir failed on a written layout", format!("scope {sc}"), "Ok".into(), e.to_string()); break; } };
+            let mut bad = None;
+            for (start, want_opts, want_ovr) in [(None, "p:a", "o"), (Some("x"), "p:x:a", "o")] {
+                let mut env = Env::new(); if let Some(x) = start { env.insert("OPTS", x); env.insert("OVR", x); }
+                let got = back.apply(scope(sc), &env);
+                let g = |n: &str| got.get(n).map(|v| v.to_string_lossy().to_string());
+                if g("OPTS").as_deref() != Some(want_opts) || g("OVR").as_deref() != Some(want_ovr) { bad = Some((start, format!("OPTS={want_opts} OVR={want_ovr}"), format!("OPTS={:?} OVR={:?}", g("OPTS"), g("OVR")))); }
+            }
+            if let Some((start, want, got)) = bad { r.violation("round_trip_order", "an environment read back applies a variable's behaviours in the lifecycle's order (append, default, override, prepend), on every read", format!("scope {:?}: OPTS.append=a OPTS.default=d OPTS.prepend=p OPTS.delim=: OVR.override=o OVR.append=a OVR.delim=: ; start {start:?}; read #{rep}", scope(sc)), want, got); break; }
+        }
+    }
     // read side: suffix-less = override, unknown suffix ignored, sub-directories skipped
     {
         r.evaluations += 1; r.nontrivial += 1;
@@ -232,6 +252,29 @@ pub fn layer_paths(_thorough: bool) -> Report {
             for q in [Scope::Build, Scope::Launch] {
                 let g = le.apply(q.clone(), &e0);
                 if g.get(var).map(|v| v.to_string_lossy().to_string()) != Some(want.clone()) { r.violation("implicit_after_explicit", "the implicit layer path is prepended after the explicit entries of the scope were applied", format!("explicit {var}.{explicit}=/opt/explicit, {sub}/ is a directory, start {start:?}, scope {q:?}"), want.clone(), format!("{:?}", g.get(var))); }
+            }
+        }
+    }
+    // read -> write -> read -> write of a layer that HAS explicit environment files (all scopes, values and names that are not valid UTF-8, an empty value)
+    // next to the implicit directories: the env directories stay byte for byte what they were
+    {
+        use std::os::unix::ffi::OsStrExt;
+        r.evaluations += 1; r.nontrivial += 1;
+        let t = tempfile::tempdir().unwrap(); let l = t.path().join("layer");
+        for d in ["bin", "lib", "include", "pkgconfig", "env", "env.build", "env.launch/web", "env.launch/worker"] { fs::create_dir_all(l.join(d)).unwrap(); }
+        fs::write(l.join("env/GREETING.override"), b"caf\xe9").unwrap(); fs::write(l.join("env/PLAIN.default"), b"plain").unwrap(); fs::write(l.join("env/EMPTY.append"), b"").unwrap();
+        fs::write(l.join("env.build/PATH.prepend"), b"/opt/x/bin").unwrap(); fs::write(l.join("env.build/PATH.delim"), b":").unwrap();
+        fs::write(l.join("env.launch").join(std::ffi::OsStr::from_bytes(b"N\xffME.override")), b"\xff\xfe\n").unwrap();
+        fs::write(l.join("env.launch/web/W.append"), b"w\x80").unwrap(); fs::write(l.join("env.launch/worker/LD_LIBRARY_PATH.override"), b"/only").unwrap();
+        let before = snapshot(&l);
+        for round in 1..=2 {
+            match LayerEnv::read_from_layer_dir(&l).and_then(|le| le.write_to_layer_dir(&l)) {
+                Err(e) => { r.violation("fixpoint", "read -> write failed", format!("round {round}"), "Ok".into(), e.to_string()); break; }
+                Ok(()) => if snapshot(&l) != before {
+                    let after = snapshot(&l);
+                    let diff: Vec<String> = before.iter().filter(|x| !after.contains(x)).map(|x| format!("before {x:?}")).chain(after.iter().filter(|x| !before.contains(x)).map(|x| format!("after {x:?}"))).take(6).collect();
+                    r.violation("fixpoint", "read -> write changed a layer directory that has explicit environment files (non-UTF-8 values / names, empty value, all scopes) next to bin/ lib/ include/ pkgconfig/", format!("round {round}: env/GREETING.override = 63 61 66 E9, env.launch/N\\xFFME.override = FF FE 0A, env.launch/web/W.append = 77 80, .."), "unchanged".into(), diff.join("; ")); break;
+                }
             }
         }
     }
